@@ -27,3 +27,6 @@ Proof. vm_compute. reflexivity. Qed.
 
 Lemma resolution_cache_key_keeps_what_determines_the_result : resolution_key_ok resolution_key_fields = true.
 Proof. vm_compute. reflexivity. Qed.
+
+Lemma mutation_sites_are_pinned : keys_eqb mutation_sites pinned_mutation_sites = true.
+Proof. vm_compute. reflexivity. Qed.
